@@ -7,9 +7,11 @@ use crate::refegg::{Model, Stop};
 use egglog::EGraph;
 
 pub mod c01;
+pub mod c02;
 pub mod c03;
 pub mod c04;
 pub mod c05;
+pub mod c06;
 pub mod c10;
 pub mod c13;
 pub mod c14;
